@@ -383,11 +383,21 @@ func init() {
 			s.slen(), h, ref, h, s.base(), s.off(), h, ref))
 		return Val{T: i.Type(), C: []string{ite(eq(s.base(), "0"), "0", ref), "0", s.slen(), s.slen()}}
 	})
-	reg("(gorgonia.org/tensor.Shape).Eq", "true iff same length and equal extents", func(x *Exec, fr *Frame, i *ssa.Call, fn *ssa.Function, args []Val) Val {
+	reg("(gorgonia.org/tensor.Shape).Eq", "gorgonia v0.9.24 semantics: two rank-0 shapes are equal; a vector (n) equals the column (n,1) and the row (1,n) with n > 1; otherwise same length and equal extents", func(x *Exec, fr *Frame, i *ssa.Call, fn *ssa.Function, args []Val) Val {
 		st := fr.curSt
 		a, b := args[0], args[1]
 		da, db := x.shapeOfSlice(st, a), x.shapeOfSlice(st, b)
-		r := x.define("shape_eq", SBool, and(eq(da.rank, db.rank), fmt.Sprintf("(forall ((i Int)) (=> (and (<= 0 i) (< i %s)) (= %s %s)))", da.rank, da.dim("i"), db.dim("i"))))
+		plain := and(eq(da.rank, db.rank), fmt.Sprintf("(forall ((i Int)) (=> (and (<= 0 i) (< i %s)) (= %s %s)))", da.rank, da.dim("i"), db.dim("i")))
+		col := func(d dimsOf) string { return and(eq(d.rank, "2"), eq(d.dim("1"), "1"), sx(">", d.dim("0"), "1")) }
+		row := func(d dimsOf) string { return and(eq(d.rank, "2"), eq(d.dim("0"), "1"), sx(">", d.dim("1"), "1")) }
+		vec21 := func(m, v dimsOf) string { // m has rank 2 and is a vector, v has rank 1
+			return or(and(col(m), eq(m.dim("0"), v.dim("0"))), and(row(m), eq(m.dim("1"), v.dim("0"))))
+		}
+		isVec := func(d dimsOf) string { return or(col(d), row(d), eq(d.rank, "1")) }
+		bothVec := and(isVec(da), isVec(db))
+		c21 := and(bothVec, eq(da.rank, "2"), eq(db.rank, "1"))
+		c12 := and(bothVec, eq(da.rank, "1"), eq(db.rank, "2"))
+		r := x.define("shape_eq", SBool, ite(c21, vec21(da, db), ite(c12, vec21(db, da), plain)))
 		return boolVal(r)
 	})
 
